@@ -16,6 +16,8 @@
 
    Every place where the code iterates a Go map and the order can leak is an explicit choice:
      * UnionByFunc          : any permutation of the merged requirements (FoldReqs)  - LEAKS into InitFilter (finding F7)
+     * AddonFilter.InitFilter's mixFilters map : the code sorts the keys (SubOrder = "sorted"); SubOrder = "any" is the hazard
+                              model (any permutation) - the position of a sub filter decides which pairing slot it restricts
      * lavaslices.Intersection : order of the effective selected list               - used as a set only (modelled as a set)
      * isRequirementSupported / requirement map : conjunction, order free
      * ScoreComponents product : two commuting factors (stake, geo), order free
@@ -37,6 +39,7 @@ CONSTANTS NP,        \* providers per generated configuration
           Den,       \* common denominator of geo costs (odd)
           MaxSlots,  \* largest MaxProvidersToPair
           GenN,      \* generator: number of configurations
+          SubOrder,  \* "sorted" | "any" : order in which AddonFilter.InitFilter returns its sub mix filters (a Go map; the code sorts the keys)
           UnionMode, \* "any" | "firstseen" : order of lavaslices.UnionByFunc
           Mode       \* "mc" exhaustive model checking | "gen" configuration generator | "trace"
 
@@ -48,9 +51,10 @@ VARIABLES cfg,     \* [id, prov: Seq of [stake, geo, st, kx, ky], plan, sub, adm
           out,     \* pairing list so far (provider numbers)
           grp,     \* current slot group (1-based)
           pos,     \* position inside the group's index list (1-based)
-          ver      \* answers of Verify per provider
+          ver,     \* answers of Verify per provider
+          sub      \* sub mix filters of the add-on filter in the order InitFilter returned them (chosen by SetupScores)
 
-vars == <<cfg, tab, phase, eff, skip, out, grp, pos, ver>>
+vars == <<cfg, tab, phase, eff, skip, out, grp, pos, ver, sub>>
 
 \* every string that can be a sub-filter key (add-on or extension name), in Go sort.Strings order
 StrOrd == <<"", "a", "b", "e", "f", "x", "y">>
@@ -133,15 +137,21 @@ Before(a, b) == a.i < b.i \/ (a.i = b.i /\ (a.j < b.j \/ (a.j = b.j /\ a.t < b.t
 FirstWrite(W, k) == LET Wk == {w \in W : w.key = k} IN CHOOSE w \in Wk : \A v \in Wk : v = w \/ Before(w, v)
 SubFilters(reqs) == LET W == Writes(reqs)  ks == SortedStrs({w.key : w \in W}) IN
                     [n \in 1..Len(ks) |-> [t |-> "rm", rm |-> FirstWrite(W, ks[n]).rm]]
+\* the sub filters are collected in a Go map; the code returns them in sorted key order.  SubOrder = "any": every order.
+SubFilterOrders(reqs) == IF SubOrder = "sorted" THEN {SubFilters(reqs)}
+                         ELSE LET W == Writes(reqs) IN
+                              {[n \in 1..Len(o) |-> [t |-> "rm", rm |-> FirstWrite(W, o[n]).rm]] : o \in Perms({w.key : w \in W})}
 SelPass(e, row) == row.p \in e.sel
 \* mandatory filters: frozen (always), selected providers when EXCLUSIVE, the full addon requirement when no requirement is mixed
 MandatoryPass(e, row) == /\ row.ok
                          /\ (e.mode = 2 => SelPass(e, row))
                          /\ ((AddonActive(e.reqs) /\ ~AddonMix(e.reqs)) => Supports(MainReq(e.reqs), row.svc))
 \* mix filters in the order SetupScores sees them
-MixFilters(e) == (IF e.mode = 1 THEN <<[t |-> "sel", rm |-> {}]>> ELSE <<>>) \o
-                 (IF AddonActive(e.reqs) /\ AddonMix(e.reqs)
-                    THEN <<[t |-> "rm", rm |-> MainReq(e.reqs)]>> \o SubFilters(e.reqs) ELSE <<>>)
+\* (sb = the add-on filter's sub mix filters in the order InitFilter returned them)
+MixFiltersWith(e, sb) == (IF e.mode = 1 THEN <<[t |-> "sel", rm |-> {}]>> ELSE <<>>) \o
+                         (IF AddonActive(e.reqs) /\ AddonMix(e.reqs)
+                            THEN <<[t |-> "rm", rm |-> MainReq(e.reqs)]>> \o sb ELSE <<>>)
+MixFilters(e) == MixFiltersWith(e, SubFilters(e.reqs))
 MixPass(e, f, row) == IF f.t = "sel" THEN SelPass(e, row) ELSE Supports(f.rm, row.svc)
 \* CalculateMixFilterSlots: slots (0-based) in which mix filter number fi (1-based) of cnt is applied, n slots
 MixSlotsOf(cnt, n, fi) ==
@@ -150,12 +160,13 @@ MixSlotsOf(cnt, n, fi) ==
            pib == n \div ((cnt \div fib) + 1)
        IN {i \in 0..(n - 1) : i >= pib /\ LET start == ((i \div pib) - 1) * fib IN
                                              start + fib <= cnt /\ fi - 1 >= start /\ fi - 1 < start + fib}
-SlotFiltering(e, row) == LET mf == MixFilters(e) IN
+SlotFiltering(e, sb, row) == LET mf == MixFiltersWith(e, sb) IN
   UNION {MixSlotsOf(Len(mf), e.max, fi) : fi \in {k \in 1..Len(mf) : ~MixPass(e, mf[k], row)}}
 \* SetupScores: surviving providers in reverse table order, each with its slot filtering
-Scores(e, tb) == LET s == Rev(SelectSeq(tb, LAMBDA row : MandatoryPass(e, row))) IN
+ScoresWith(e, tb, sb) == LET s == Rev(SelectSeq(tb, LAMBDA row : MandatoryPass(e, row))) IN
                   [i \in 1..Len(s) |-> [p |-> s[i].p, stake |-> s[i].stake, geo |-> s[i].geo, gl |-> s[i].gl,
-                                         sf |-> SlotFiltering(e, s[i])]]
+                                         sf |-> SlotFiltering(e, sb, s[i])]]
+Scores(e, tb) == ScoresWith(e, tb, SubFilters(e.reqs))       \* the code as found: sorted keys
 Eligible(e, tb) == {tb[i].p : i \in {k \in 1..Len(tb) : MandatoryPass(e, tb[k])}}
 
 ------------------------------------------------------------------------------
@@ -252,7 +263,7 @@ UPol(r) == [on |-> TRUE, gl |-> FALSE, geo |-> {1}, max |-> MaxSlots, mode |-> 0
 
 ------------------------------------------------------------------------------
 (* actions: one per stage of getPairingForClient *)
-Blank == /\ phase = "start" /\ eff = [err |-> TRUE] /\ skip = {} /\ out = <<>> /\ grp = 1 /\ pos = 1 /\ ver = <<>>
+Blank == /\ phase = "start" /\ eff = [err |-> TRUE] /\ skip = {} /\ out = <<>> /\ grp = 1 /\ pos = 1 /\ ver = <<>> /\ sub = <<>>
 
 McInit == /\ \E f \in McProvSeqs : \E fz \in {0, 1, NP} : \E pl \in McPol :
                cfg = [id |-> 0, prov |-> Freeze(f, fz), plan |-> pl, sub |-> NoPolicy, admin |-> NoPolicy]
@@ -264,6 +275,12 @@ C40Init == /\ \E f \in McProvSeqs : \E g \in PolGeoSets : \E m \in 2..MaxSlots :
                        plan |-> [on |-> TRUE, gl |-> FALSE, geo |-> g, max |-> m, mode |-> 0, sel |-> {}, reqs |-> <<>>]]
            /\ tab = TabOf(cfg)
            /\ Blank
+\* C01 design level, sub filter order: one mixed requirement (x, a, <<e>>) -> sub filter keys "a" and "e"; providers that
+\* support neither / only the add-on / only the extension / both
+SubInit == /\ cfg \in [id : {0}, prov : [1..NP -> [stake : {1}, geo : {{1}}, st : {"ok"}, kx : {0, 1, 2, 3}, ky : {0}]],
+                       plan : {UPol(<<[ifc |-> "x", ad |-> "a", ext |-> <<"e">>, mx |-> TRUE]>>)}, sub : {NoPolicy}, admin : {NoPolicy}]
+           /\ tab = TabOf(cfg)
+           /\ Blank
 UnionInit == /\ cfg \in [id : {0}, prov : [1..NP -> UProv], plan : {UPol(<<>>)}, sub : {UPol(r) : r \in UReq}, admin : {UPol(r) : r \in UReq}]
              /\ tab = TabOf(cfg)
              /\ Blank
@@ -271,19 +288,21 @@ UnionInit == /\ cfg \in [id : {0}, prov : [1..NP -> UProv], plan : {UPol(<<>>)},
 \* GetProjectStrictestPolicy (EffectivePolicy query): the union order is Go's map order
 ComputeEffective == /\ phase = "start"
                     /\ \E e \in EffPolicies(cfg) : eff' = e /\ phase' = IF e.err THEN "err" ELSE "eff"
-                    /\ UNCHANGED <<cfg, tab, skip, out, grp, pos, ver>>
+                    /\ UNCHANGED <<cfg, tab, skip, out, grp, pos, ver, sub>>
 
 \* filters.SetupScores + the early return of getPairingForClient
 SetupScores == /\ phase = "eff"
-               /\ LET sc == Scores(eff, tab) IN
-                    IF eff.max >= Len(sc)
-                      THEN out' = [i \in 1..Len(sc) |-> sc[i].p] /\ phase' = "done"
-                      ELSE out' = <<>> /\ phase' = "pick"
+               /\ \E sb \in SubFilterOrders(eff.reqs) :          \* initFilters -> AddonFilter.InitFilter
+                    LET sc == ScoresWith(eff, tab, sb) IN
+                      /\ sub' = sb
+                      /\ IF eff.max >= Len(sc)
+                           THEN out' = [i \in 1..Len(sc) |-> sc[i].p] /\ phase' = "done"
+                           ELSE out' = <<>> /\ phase' = "pick"
                /\ UNCHANGED <<cfg, tab, eff, skip, grp, pos, ver>>
 
 \* one iteration of the slot loop of PickProviders (r = rng.Int63n(effective)+1 is the environment's choice)
 Pick == /\ phase = "pick"
-        /\ LET sc == Scores(eff, tab)
+        /\ LET sc == ScoresWith(eff, tab, sub)
                req == GroupGeo(eff, grp)
                gis == GroupIdx(eff, grp)
                gi == gis[pos]
@@ -295,13 +314,13 @@ Pick == /\ phase = "pick"
                /\ IF last THEN phase' = "done" /\ UNCHANGED <<grp, pos>>
                   ELSE /\ phase' = "pick"
                        /\ IF pos = Len(gis) THEN grp' = grp + 1 /\ pos' = 1 ELSE grp' = grp /\ pos' = pos + 1
-        /\ UNCHANGED <<cfg, tab, eff, ver>>
+        /\ UNCHANGED <<cfg, tab, eff, ver, sub>>
 
 \* ValidatePairingForClient recomputes the same list (same epoch hash => same r) and looks the provider up
 Verify == /\ phase = "done"
           /\ ver' = [p \in 1..Len(tab) |-> p \in ToSet(out)]
           /\ phase' = "verified"
-          /\ UNCHANGED <<cfg, tab, eff, skip, out, grp, pos>>
+          /\ UNCHANGED <<cfg, tab, eff, skip, out, grp, pos, sub>>
 
 Next == ComputeEffective \/ SetupScores \/ Pick \/ Verify
 
@@ -317,11 +336,12 @@ Iff == phase = "verified" => \A i \in 1..Len(tab) : ver[tab[i].p] <=> tab[i].p \
 EligibleOrderFree == phase = "start" => \A e1, e2 \in EffPolicies(cfg) : Eligible(e1, tab) = Eligible(e2, tab)
 
 (* C01 (design level): what SetupScores hands to PickProviders must not depend on the union order *)
-OrderIndependent == phase = "start" => \A e1, e2 \in EffPolicies(cfg) : e1.err \/ Scores(e1, tab) = Scores(e2, tab)
+OrderIndependent == phase = "start" => \A e1, e2 \in EffPolicies(cfg) : e1.err \/
+                       \A s1 \in SubFilterOrders(e1.reqs), s2 \in SubFilterOrders(e2.reqs) : ScoresWith(e1, tab, s1) = ScoresWith(e2, tab, s2)
 
 (* C40: the interval rule *)
 IntervalRule == phase = "pick" =>
-  LET sc == Scores(eff, tab)  req == GroupGeo(eff, grp)  gi == GroupIdx(eff, grp)[pos]
+  LET sc == ScoresWith(eff, tab, sub)  req == GroupGeo(eff, grp)  gi == GroupIdx(eff, grp)[pos]
       V == ValidSet(sc, req, skip, gi)  w == Weights(sc, req)  m == Round(SumSet(w, V)) IN
   \E pk \in {[r \in 1..m |-> PickIn(w, V, r)]} :
     LET cnt(i) == Cardinality({r \in 1..m : pk[r] = i}) IN
@@ -365,11 +385,23 @@ GenCfgPlain(n) == Bind({
             !.admin = IF coin THEN NoPolicy ELSE [a EXCEPT !.mode = 0, !.sel = {}, !.reqs = <<>>],
             !.prov = [i \in 1..NP |-> IF i = fz THEN c.prov[i] ELSE [c.prov[i] EXCEPT !.st = "ok"]]]
   : c \in {GenCfg(n)}, a \in {GenPol(FALSE)}, coin \in {RandomElement({TRUE, FALSE})}, pm \in {RandomElement(2..3)}, fz \in {RandomElement(1..NP)}})
+\* bias for C01 (sub filter order): one mixed requirement with 2-3 sub filter keys (add-on + extensions), providers that
+\* differ in which of them they support, all eligible, fewer slots than providers
+HetKinds == <<0, 1, 2, 3, 8, 9, 10, 11, 1, 2, 8>>
+GenCfgMixKeys(n) == Bind({
+  [c EXCEPT !.plan = [@ EXCEPT !.mode = 0, !.sel = {}, !.max = pm,
+                               !.reqs = <<[ifc |-> ifc, ad |-> OneOf(<<"a", "a", "">>), ext |-> OneOf(<< <<"e", "f">>, <<"e", "f">>, <<"e">> >>), mx |-> TRUE]>>],
+            !.sub = NoPolicy,
+            !.admin = IF coin THEN NoPolicy ELSE [a EXCEPT !.mode = 0, !.sel = {}, !.reqs = <<>>, !.max = MaxSlots, !.geo = c.plan.geo],
+            !.prov = [i \in 1..NP |-> [c.prov[i] EXCEPT !.st = "ok", !.kx = IF ifc = "x" THEN OneOf(HetKinds) ELSE @,
+                                                        !.ky = IF ifc = "y" THEN OneOf(HetKinds) ELSE @]]]
+  : c \in {GenCfg(n)}, a \in {GenPol(FALSE)}, coin \in {RandomElement({TRUE, FALSE})}, pm \in {RandomElement(3..4)}, ifc \in {RandomElement({"x", "y"})}})
 JsonPol(p) == [on |-> p.on, geo |-> SortedInts(p.geo), max |-> p.max, mode |-> p.mode, sel |-> SortedInts(p.sel), reqs |-> p.reqs]
 JsonCfg(c) == [id |-> c.id, prov |-> [i \in 1..Len(c.prov) |-> [c.prov[i] EXCEPT !.geo = SortedInts(@)]],
                plan |-> JsonPol(c.plan), sub |-> JsonPol(c.sub), admin |-> JsonPol(c.admin)]
-GenInit == /\ \E n \in 1..GenN : \E c \in {IF Mode = "genunion" /\ n % 2 = 0 THEN GenCfgUnion(n)
-                                      ELSE IF Mode = "genplain" /\ n % 4 # 0 THEN GenCfgPlain(n) ELSE GenCfg(n)} : cfg = c
+GenInit == /\ \E n \in 1..GenN : \E c \in {IF Mode = "genunion" THEN (IF n % 2 = 0 THEN GenCfgUnion(n) ELSE GenCfgMixKeys(n))
+                                      ELSE IF Mode = "genplain" THEN (IF n % 4 = 0 THEN GenCfgMixKeys(n) ELSE GenCfgPlain(n))
+                                      ELSE IF n % 4 = 1 THEN GenCfgMixKeys(n) ELSE GenCfg(n)} : cfg = c
            /\ tab = <<>>
            /\ Blank
 GenNext == UNCHANGED vars
